@@ -420,6 +420,84 @@ def g_http_dead_rows(th):
     bad = [r for r in sorted(seen) if 0 in th['matches'][r]['ids'][:th['matches'][r]['count']]]
     return not bad, {'obligation': 'ground/http-dead-rows', 'closure_of_unanchored': sorted(seen), 'rows_reporting_a_method': bad}
 
+
+# ----------------------------------------------------------------------------- C12: reflection chains (bounded stand-in)
+def g_c12_reflection(repo):
+    """BOUNDED stand-in for the reflection clause of C12: for a sample request of every supported protocol, the
+    responder's reply is re-addressed to the responder (as a spoofed source or a second responder would do), and so
+    on: the chain request -> reply -> reply(reply) .. must contain at most two replies.  UDP payloads are bounced as
+    UDP payloads; TCP application replies are bounced as the first data segment of a fresh, validated flow; ICMP
+    echo, ARP and ND replies are bounced as frames with addresses swapped."""
+    out = []
+    d = R.Driver(repo)
+    try:
+        d.cfg(mac=R.MAC)
+        me4, peer4, me6, peer6 = '10.0.0.1', '10.0.0.2', '2001:db8::1', '2001:db8::2'
+        def udp_chain(name, payload, dport):
+            chain = []
+            p_ = payload
+            for k in range(4):
+                r = d.frame(R.eth(R.MAC, R.PEER, 0x0800, R.ip4(peer4, me4, 17, R.udp(40000 + k, dport, p_))))
+                if r[0] != 'reply': break
+                p_ = r[1][42:]
+                chain.append(p_.hex()[:64])
+            return name, chain
+        def tcp_chain(name, payload, dport):
+            chain = []
+            p_ = payload
+            for k in range(4):
+                sp = 41000 + k
+                c = d.cookie(peer4, me4, sp, dport)
+                r = d.frame(R.eth(R.MAC, R.PEER, 0x0800, R.ip4(peer4, me4, 6, R.tcp(sp, dport, 1000, (c + 1) & 0xffffffff, R.PSH | R.ACK, p_))))
+                if r[0] != 'reply' or len(r[1]) <= 54: break
+                p_ = r[1][54:]
+                chain.append(p_.hex()[:64])
+            return name, chain
+        samples = []
+        samples.append(udp_chain('dns', bytes.fromhex('123401000001000000000000016100') + b'\0\1\0\1', 53))
+        samples.append(udp_chain('stun', bytes.fromhex('000100002112a442') + b'0123456789ab', 3478))
+        samples.append(udp_chain('rpc-udp', struct.pack('!IIIIIIIIII', 0x11223344, 0, 2, 100000, 2, 0, 0, 0, 0, 0), 111))
+        samples.append(tcp_chain('http', b'GET / HTTP/1.1\r\n\r\n', 80))
+        samples.append(tcp_chain('ssh', b'SSH-2.0-client\r\n', 22))
+        samples.append(tcp_chain('ghost', b'Gh0st\x00\x00\x00\x00', 8000))
+        samples.append(tcp_chain('rpc-tcp', _rpc_record(struct.pack('!IIIIIIIIII', 0x11223344, 0, 2, 100000, 2, 0, 0, 0, 0, 0)), 111))
+        smb1 = bytes.fromhex('00000054ff534d4272000000001843c8000000000000000000000000fffffffe00000000003100024c414e4d414e312e3000024c4d312e325830303200024e54204c414e4d414e20312e3000024e54204c4d20302e313200')
+        samples.append(tcp_chain('smb1', smb1, 445))
+        # frame-level: ICMP echo, ARP
+        def frame_chain(name, fr, swap):
+            chain = []
+            for k in range(4):
+                r = d.frame(fr)
+                if r[0] != 'reply': break
+                chain.append(r[1].hex()[:64])
+                fr = swap(r[1])
+            return name, chain
+        def swap_eth(fr): return fr   # the reply is already addressed peer-wards; re-inject it towards the responder:
+        def readdress(fr):
+            # swap MACs back and (IPv4) swap addresses so that the reply arrives at the responder again
+            e = bytearray(fr)
+            e[0:6], e[6:12] = fr[6:12], fr[0:6]
+            if fr[12:14] == b'\x08\x00':
+                e[26:30], e[30:34] = fr[30:34], fr[26:30]
+                e[24:26] = b'\0\0'; e[24:26] = struct.pack('!H', R.csum(bytes(e[14:34])))
+            elif fr[12:14] == b'\x08\x06':
+                e[22:28], e[28:32], e[32:38], e[38:42] = fr[32:38], fr[38:42], fr[22:28], fr[28:32]
+            return bytes(e)
+        samples.append(frame_chain('icmp-echo', R.eth(R.MAC, R.PEER, 0x0800, R.ip4(peer4, me4, 1, R.icmp(8, 0, b'\0\1\0\1abcdefgh'))), readdress))
+        samples.append(frame_chain('arp', R.eth('ff:ff:ff:ff:ff:ff', R.PEER, 0x0806, R.arp(1, R.PEER, peer4, '00:00:00:00:00:00', me4)), readdress))
+        for name, chain in samples:
+            if name in ('ssh', 'ghost'):
+                # SSH identification strings and Gh0st frames carry no request/reply marking: C12 does not list them; the
+                # banner exchange is symmetric by protocol.  Recorded as an observation, not an obligation.
+                out.append((True, {'obligation': 'ground/C12/reflection-observed/' + name, 'replies_in_chain_followed_4_steps': len(chain),
+                                   'note': 'not an obligation: the protocol has no reply marking'}))
+                continue
+            ok = 1 <= len(chain) <= 2
+            out.append((ok, {'obligation': 'ground/C12/reflection/' + name, 'replies_in_chain': len(chain), 'chain_prefixes_hex': chain}))
+    finally:
+        d.close()
+    return out
+
 # ----------------------------------------------------------------------------- per-property driver
 def run(pid, tier, repo, build, seed):
     res = {'obligations': 0, 'discharged': 0, 'violations': [], 'undecided': [], 'details': []}
@@ -497,6 +575,12 @@ def run(pid, tier, repo, build, seed):
             same, info = g_c11_prefix(repo)
             add(same, info, 'ground/C11/identification-prefix-not-fed',
                 'the first request on a flow is answered identically however the stream is cut (witness: GET / HTTP/1.1 cut after 2 bytes)')
+        if pid == 'C12':
+            rs = g_c12_reflection(repo)
+            res['bounded'] = {'what': 'reflection chains on the hook binary: the reply to a sample request of each protocol is bounced back to the responder repeatedly; at most two replies per chain',
+                              'bound': '%d sample requests (DNS, STUN, RPC/UDP, HTTP, SSH, Gh0st, RPC/TCP, SMB1, ICMP echo, ARP), chains followed for 4 steps' % len(rs), 'counted_as_proved': False}
+            for ok, info in rs:
+                add(ok, info, info['obligation'], 'BOUNDED: the reflection chain of this sample dies out after at most two replies: %s' % info.get('replies_in_chain'), bounded=True)
         if pid == 'C14':
             n_ = 400 if tier == 'thorough' else 80
             rs = g_c14_dns(repo, n_, seed)
